@@ -13,8 +13,10 @@ Definition qsqrt (x : Q) : Q :=
   if Qleb x 0 then 0
   else Z.sqrt (Qfloor (x * inject_Z (2 ^ 120))) # (2 ^ 60).
 
+(* sums / products are kept in lowest terms (Qred x == x): the values are unchanged, the terms stay small *)
 Definition QO : fops Q :=
-  {| o0 := 0; o1 := 1; oadd := Qplus; osub := Qminus; omul := Qmult; odiv := Qdiv;
+  {| o0 := 0; o1 := 1; oadd := fun a b => Qred (a + b); osub := fun a b => Qred (a - b);
+     omul := fun a b => Qred (a * b); odiv := fun a b => Qred (a / b);
      oofZ := inject_Z; omax := Qmax; oltb := Qltb; oeqb := Qeqb; osqrt := qsqrt |}.
 
 (* Battery.charge / Linear2StageBattery.charge (dispatch on charge_calculation) *)
